@@ -150,7 +150,7 @@ struct Enumerated {
     multikey: Vec<String>,
     /// more two-/three-key templates (K' cached before; lookups for both keys x a publish; 4 concurrent
     /// tasks; the lookup of `multikey` parked inside both of its lock scopes): sampled at random
-    multikey_pool: Vec<String>,
+    multikey_pool: Vec<Vec<String>>,
 }
 
 /// Exhaustive part: sequential prefix, all interleavings of the concurrent tasks, sequential suffix.
@@ -249,19 +249,26 @@ fn enumerated() -> &'static Enumerated {
             // lookup(K) x lookup(K') x publish(K) x publish(K')
             (vec![k0(1, 1), k1(1, 5), Task::R(0, 0), Task::R(1, 0), k0(2, 2), k1(2, 3), Task::R(0, 0), Task::R(1, 0)], 2, 4),
         ];
-        for (set, out) in [(&mk, &mut multikey), (&mk_pool, &mut multikey_pool)] {
-            for (tasks, lead, conc) in set.iter() {
-                let pre = lead_steps(tasks, *lead);
-                let ids: Vec<usize> = (*lead..lead + conc).collect();
-                let mut counts: Vec<usize> = ids.iter().map(|i| tasks[*i].steps()).collect();
-                let mut ms = Vec::new();
-                merges(&ids, &mut counts, &mut Vec::new(), &mut ms);
-                for m in ms {
+        let all_merges = |tasks: &Vec<Task>, lead: usize, conc: usize| -> Vec<String> {
+            let pre = lead_steps(tasks, lead);
+            let ids: Vec<usize> = (lead..lead + conc).collect();
+            let mut counts: Vec<usize> = ids.iter().map(|i| tasks[*i].steps()).collect();
+            let mut ms = Vec::new();
+            merges(&ids, &mut counts, &mut Vec::new(), &mut ms);
+            ms.into_iter()
+                .map(|m| {
                     let mut s = pre.clone();
                     s.extend(m);
-                    out.push(raw_case(tasks, &s));
-                }
-            }
+                    raw_case(tasks, &s)
+                })
+                .collect()
+        };
+        for (tasks, lead, conc) in mk.iter() {
+            multikey.extend(all_merges(tasks, *lead, *conc));
+        }
+        // one group per template; a random case picks the group first, then one of its interleavings
+        for (tasks, lead, conc) in mk_pool.iter() {
+            multikey_pool.push(all_merges(tasks, *lead, *conc));
         }
         // held variants of the first two: the lookup parked inside both of its lock scopes (5 entries)
         // merged with the 2 + 2 entries of the publishes (756 each)
@@ -271,15 +278,17 @@ fn enumerated() -> &'static Enumerated {
             let rs = [(r, true), (r, false), (r, false), (r, true), (r, false)];
             let mut ps = Vec::new();
             merges2(&[(r + 1, false), (r + 1, false)], &[(r + 2, false), (r + 2, false)], &mut Vec::new(), &mut ps);
+            let mut group = Vec::new();
             for p in ps {
                 let mut ms = Vec::new();
                 merges2(&rs, &p, &mut Vec::new(), &mut ms);
                 for m in ms {
                     let mut s = pre.clone();
                     s.extend(m);
-                    multikey_pool.push(raw_case_h(tasks, &s));
+                    group.push(raw_case_h(tasks, &s));
                 }
             }
+            multikey_pool.push(group);
         }
         Enumerated { small, held, large, multikey, multikey_pool }
     })
@@ -410,7 +419,10 @@ fn generate(rng: &mut Rng, i: u64, n: u64) -> String {
     }
     // random part: 1/4 a sample of the larger two-key templates, 1/4 random two-key task lists
     match rng.below(4) {
-        0 => return rng.pick(&e.multikey_pool).clone(),
+        0 => {
+            let group = rng.pick(&e.multikey_pool);
+            return rng.pick(group).clone();
+        }
         1 => return gen_multikey(rng),
         _ => {}
     }
